@@ -64,7 +64,7 @@ def gen_scripts(ctx):
         sc = json.load(open(p))
         sc.pop("comment", None)
         scripts.append(sc)
-    n = 400 if ctx.thorough else 80
+    n = 400 if ctx.thorough else 60
     for i in range(n):
         scripts.append({"id": "r%d" % i, "nodes": 3, "mode": "random", "seed": ctx.rng.randrange(1, 2 ** 62),
                         "max_steps": ctx.rng.choice([20, 35, 50]), "flavor": ["stable", "churn", "stable"][i % 3],
@@ -215,7 +215,7 @@ def run(ctx):
 
 
 META = {
-    "ready": False,
+    "ready": True,
     "category": "proof",
     "technique": "Rocq inductive invariant over an interleaving model with a membership oracle + controlled-scheduler conformance against the real SpawnSingleton",
     "text": "SpawnSingleton modelled as call threads over a linearizable registry with a Members() oracle whose answers are arbitrary; literal property refuted by a machine-checked 2-node witness replayed on the real code every run (known finding); stable-leader theorem proved for any number of nodes/calls and both publication modes.",
